@@ -555,11 +555,13 @@ class FnVerifier(Verifier):
                             g.pc += new
                             self.oblige('raises:%s:only-when' % o.exc, g, t)
                         for ci, cl in enumerate(self.ctr.raises_ensures.get(o.exc, [])):
-                            if o.val is None:
+                            mentions_exc = any(isinstance(n_, ast.Name) and n_.id == 'exc' for n_ in ast.walk(self.ctr.parse(cl)))
+                            if o.val is None and mentions_exc:
                                 raise OutOfSubset('raised %s object is not modelled (no constructor contract)' % o.exc)
                             g = o.st.fork()
                             g.env = dict(self.entry.env)
-                            g.env['exc'] = o.val
+                            if o.val is not None:
+                                g.env['exc'] = o.val
                             self._old_stack.append(self.entry)
                             try:
                                 t, new = self.spec_eval(g, cl)
